@@ -83,6 +83,16 @@ PROPS = {
                 "and modifier roots; non-trivial = valid call with >= 2 leaves",
         "trust": [], "assumptions": ["root and leaves are terms of the source ontology", "non-empty leaf collection"],
     },
+    "C18": {
+        "subs": [sub("C18", "run_C18", "spec_C18", W_IMPORTS + ["Run.C18"], 300, 3000)],
+        "run_modules": ["C18"],
+        "rule": "pairs (old, new) of ontologies where new is old after 0-5 edits (term renamed, parent link added — also one that was already "
+                "an indirect ancestor — or removed, obsolete flipped, replacement changed to a resolving / dangling / no id, annotation fact "
+                "added / removed, record added / removed / renamed, term added / removed), built through the Builder or binary v2/v3; all "
+                "Comparison / HpoTermDelta / AnnotationDelta accessors for compare(old,new), compare(new,old), compare(old,old) and "
+                "compare(old, from_bytes(as_bytes(old))); vectors compared as sets; non-trivial = exactly one edit",
+        "trust": [], "assumptions": ["names within the 255-byte limit of the binary format (for the round-trip comparison)"],
+    },
     "C20": {
         "subs": [sub("C20", "run_C20", "spec_C20", ["Run.C20"], 400, 4000)],
         "run_modules": ["C20"],
